@@ -168,8 +168,9 @@ proof fn lemma_grease_values(t: u16)
 
 HINTS = [
     {"at_start": True, "text": "    let ghost i0 = i@;\n    proof { reveal_with_fuel(be_val, 3); }"},
-    {"after": r"let \(i, ext_type\) = be_u16\(i\)\?;", "text": "    let ghost i1 = i@;\n    proof { assert(i0.len() >= 2); assert(i1 =~= i0.subrange(2, i0.len() as int)); assert(ext_type as int == be_val(i0, 2)); }"},
-    {"after": r"let \(i, ext_data\) = length_data\(be_u16\)\(i\)\?;", "text": "    proof { assert(i1.len() >= 2); assert(be_val(i1, 2) == (i0[2] as int) * 256 + (i0[3] as int)); let l = be_val(i1, 2); assert(0 <= l <= 65535); assert(ext_data@ =~= i0.subrange(4, 4 + l)); assert(ext_data@.len() == l); assert(i@ =~= i0.subrange(4 + l, i0.len() as int)); }"},
+    # rename-tolerant anchors: {g1} = the name the remainder is bound to
+    {"after": r"let \((\w+), ext_type\) = be_u16\(\w+\)\?;", "text": "    let ghost i1 = {g1}@;\n    proof { assert(i0.len() >= 2); assert(i1 =~= i0.subrange(2, i0.len() as int)); assert(ext_type as int == be_val(i0, 2)); }"},
+    {"after": r"let \((\w+), ext_data\) = length_data\(be_u16\)\(\w+\)\?;", "text": "    proof { assert(i1.len() >= 2); assert(be_val(i1, 2) == (i0[2] as int) * 256 + (i0[3] as int)); let l = be_val(i1, 2); assert(0 <= l <= 65535); assert(ext_data@ =~= i0.subrange(4, 4 + l)); assert(ext_data@.len() == l); assert({g1}@ =~= i0.subrange(4 + l, i0.len() as int)); }"},
 ]
 
 def disp(fn, table):
